@@ -79,7 +79,10 @@ pub fn check_case(ctx: &Ctx, case: &SpawnCase, rep: &mut CaseReport) -> CaseResu
     let other = link_vchild(&bindir, OsStr::new("other-name"));
     let prefix = sc.path("rep");
     set_mode(&bindir, "report", &[&prefix.to_string_lossy(), "0", ""]);
+    // wd1 can be entered by root only: the directory change has to happen
+    // before the identity change
     let dirs = [sc.subdir("wd0"), sc.subdir("wd1")];
+    chmod(&dirs[1], 0o700);
     reap_all();
     let fail = |sig: &str, msg: String| Err(Fail::new(format!("C06:{}", sig), msg));
 
@@ -230,7 +233,10 @@ pub fn check_case(ctx: &Ctx, case: &SpawnCase, rep: &mut CaseReport) -> CaseResu
     let c = std::ffi::CString::new(want_dir.as_os_str().as_bytes()).unwrap();
     let mut stt: libc::stat = unsafe { std::mem::zeroed() };
     unsafe { libc::stat(c.as_ptr(), &mut stt) };
-    if (r.cwd_dev, r.cwd_ino) != (stt.st_dev as u64, stt.st_ino as u64) {
+    let by_ident = (r.cwd_dev, r.cwd_ino) == (stt.st_dev as u64, stt.st_ino as u64);
+    // a child that changed identity may not be allowed to stat "." any more; getcwd() still works
+    let by_path = r.cwd_dev == 0 && std::fs::canonicalize(&want_dir).map(|p| p.as_os_str().as_bytes() == &unhex(&r.cwd)[..]).unwrap_or(false);
+    if !by_ident && !by_path {
         return fail("cwd", format!("child cwd {:?}, requested {:?}", String::from_utf8_lossy(&unhex(&r.cwd)), want_dir));
     }
     // identity
